@@ -1,9 +1,11 @@
 """C14 - a content sequence and its name index never disagree.
 
 Implementation driven (real code from $VERIF_REPO/src):
-  highdicom.sr.value_types.ContentSequence: __init__, append, extend, +=, insert,
-  __setitem__ (int / slice), __delitem__ (int / slice), find, index, `in`, get_nodes,
-  is_root / is_sr, with real ContainerContentItem / TextContentItem objects.
+  highdicom.sr.value_types.ContentSequence: __init__, from_sequence (+ _check_dataset and the
+  from_dataset chain of TEXT / CONTAINER datasets, copy=True/False), append, extend, +=, insert,
+  __setitem__ (int / slice), __delitem__ (int / slice), the inherited pop, remove, reverse, clear,
+  count, find, index, `in`, get_nodes, is_root / is_sr, with real ContainerContentItem /
+  TextContentItem objects and plain pydicom Datasets.
 Model: coq/theories/C14_Model.v; theorems: C14_Props.v.
 
 A case is an operation history.  After construction and after every operation the
@@ -32,9 +34,12 @@ ORACLE_PREMISES = [
     'CodedConcept and differently spelled meanings)',
 ]
 MODELLED = ('sr/value_types.py ContentSequence.__init__, append, extend, __iadd__, insert, __setitem__, '
-            '__delitem__, index, __contains__, find, get_nodes, is_root, is_sr (pydicom Sequence = Python list, '
-            're-modelled; ContentItem abstracted to is-item/name/relationship/container/node/payload)')
-STRATA = ['hist_sr', 'hist_root', 'hist_nonsr', 'init_err', 'init_via', 'eq', 'slice']
+            '__delitem__, index, __contains__, find, get_nodes, is_root, is_sr, from_sequence, _check_dataset, '
+            '_assert_value_type / ContentItem._from_dataset_base (TEXT, CONTAINER), and the inherited '
+            'MutableSequence methods pop, remove, reverse, clear, count (pydicom Sequence = Python list, '
+            're-modelled; ContentItem abstracted to is-item/name/relationship/container/node/payload, a dataset '
+            'to is-Dataset/value type/required attribute/name/relationship/children/payload)')
+STRATA = ['hist_sr', 'hist_root', 'hist_nonsr', 'init_err', 'init_via', 'fromseq', 'eq', 'slice']
 RULE = ('random operation histories (length <= 12, plus systematic 2-operation histories) over items with 3 names '
         'x 2 spellings x 3 relationship states x container/text x node/leaf x small payloads (so equal items '
         'recur) on root / non-root SR / non-SR sequences; boundary-biased positions and slices (None, 0, +-len, '
@@ -42,10 +47,16 @@ RULE = ('random operation histories (length <= 12, plus systematic 2-operation h
         'objects, wrong relationship state, non-container at root, root&non-SR flags. non-trivial = at least 2 '
         'operations accepted and a final list with >= 2 items, or a refused operation; distinct by case hash')
 EXHAUSTIVE = {'quick': False, 'thorough': False}
-NOT_EXECUTED = ['ContentSequence.from_sequence / _check_dataset (dataset parsing path; belongs to C13/C15)',
+NOT_EXECUTED = ['from_sequence with value types other than TEXT / CONTAINER (their from_dataset differs only in the '
+                'required attribute checked by _assert_value_type)',
                 's.extend(s) (does not terminate: list grows while it is iterated)']
 
-JUNK = 'junk'
+JUNK = 'junk'        # not a Dataset at all (the int 5)
+JUNKDS = 'junkds'    # a pydicom Dataset that is not a ContentItem
+
+
+def is_junk(it):
+    return it in (JUNK, JUNKDS)
 
 
 # ---------------------------------------------------------------------------
@@ -54,7 +65,7 @@ JUNK = 'junk'
 def tup(it):
     # 'alt' (a different spelling of the code meaning) is deliberately NOT part of the tuple: CodedConcept
     # equality ignores the meaning, so such items are equal Datasets and share a name-index key
-    if it == JUNK:
+    if is_junk(it):
         return JUNK
     return (it['n'], it['rel'], bool(it['cont']), bool(it['node']), it['v'])
 
@@ -76,6 +87,9 @@ def build(it):
     from highdicom.sr import ContainerContentItem, TextContentItem
     if it == JUNK:
         return 5
+    if it == JUNKDS:
+        from pydicom import Dataset
+        return Dataset()
     rel = _REL[it['rel']]
     if it['cont']:
         x = ContainerContentItem(_name(it['n'], it['alt']), is_content_continuous=(it['v'] % 2 == 0),
@@ -133,6 +147,14 @@ def entering(op):
     return []
 
 
+def mentioned(op):
+    return entering(op) + ([op[1]] if op[0] == 'remove' else [])
+
+
+def untup(t):
+    return {'n': t[0], 'alt': 0, 'rel': t[1], 'cont': t[2], 'node': t[3], 'v': t[4]}
+
+
 def ref_apply(ref, op):
     """Apply op to a copy of the plain list with the interpreter's own list
     operations.  Returns (new_list, exception class name or None)."""
@@ -154,6 +176,14 @@ def ref_apply(ref, op):
             del new[op[1]]
         elif k == 'delslice':
             del new[slice(op[1], op[2], op[3])]
+        elif k == 'pop':
+            new.pop(-1 if op[1] is None else op[1])
+        elif k == 'remove':
+            new.remove(tup(op[1]))
+        elif k == 'reverse':
+            new.reverse()
+        elif k == 'clear':
+            new.clear()
         else:
             raise AssertionError(k)
     except (IndexError, ValueError) as e:
@@ -190,7 +220,7 @@ def simulate(case):
 # ---------------------------------------------------------------------------
 def gen_item(rng, root, sr, p_bad=0.12, p_lax=0.06, p_junk=0.03):
     if rng.random() < p_junk:
-        return JUNK
+        return rng.choice([JUNK, JUNKDS])
     want_rel = (not root) and sr
     r = rng.random()
     if r < p_bad:
@@ -228,8 +258,16 @@ def slice_len(n, a, b, c):
 def gen_op(rng, ref_len, root, sr):
     n = ref_len
     k = rng.choice(['append', 'append', 'extend', 'iadd', 'insert', 'insert', 'setint', 'setint',
-                    'setslice', 'setslice', 'setslice', 'delint', 'delint', 'delslice', 'delslice'])
+                    'setslice', 'setslice', 'setslice', 'delint', 'delint', 'delslice', 'delslice',
+                    'pop', 'remove', 'remove', 'reverse', 'reverse', 'clear' if rng.random() < 0.4 else 'pop'])
     item = lambda **kw: gen_item(rng, root, sr, **kw)   # noqa: E731
+    if k == 'pop':
+        return ['pop', None if rng.random() < 0.4 else gen_pos(rng, n)]
+    if k == 'remove':
+        # mostly an item that is (or equals one that is) in the list: the caller passes candidates
+        return ['remove', item(p_bad=0.1)]
+    if k in ('reverse', 'clear'):
+        return [k]
     if k == 'append':
         return ['append', item()]
     if k in ('extend', 'iadd'):
@@ -277,8 +315,8 @@ def gen_init(rng, root, sr, valid=True):
 
 def probes(rng, case):
     seen = []
-    for it in case['init'] + [i for op in case['ops'] for i in entering(op)]:
-        if it != JUNK and it not in seen:
+    for it in case['init'] + [i for op in case['ops'] for i in mentioned(op)]:
+        if not is_junk(it) and it not in seen:
             seen.append(it)
     rng.shuffle(seen)
     qs = seen[:6]
@@ -287,7 +325,7 @@ def probes(rng, case):
         if it not in qs:
             qs.append(it)
     if rng.random() < 0.3:
-        qs.append(JUNK)
+        qs.append(rng.choice([JUNK, JUNKDS]))
     return qs
 
 
@@ -295,9 +333,49 @@ def gen_history(rng, flavour, nops):
     root, sr = {'sr': (False, True), 'root': (True, True), 'nonsr': (False, False)}[flavour]
     case = {'kind': 'hist_' + flavour, 'root': root, 'sr': sr, 'init': gen_init(rng, root, sr), 'ops': [],
             'find_code': rng.random() < 0.3, 'reuse': rng.random() < 0.4}
+    add_ops(rng, case, nops)
+    case['qs'] = probes(rng, case)
+    return case
+
+
+def add_ops(rng, case, nops):
     for _ in range(nops):
         ref, _lax = simulate(case)
-        case['ops'].append(gen_op(rng, len(ref), root, sr))
+        op = gen_op(rng, len(ref), case['root'], case['sr'])
+        if op[0] == 'remove' and ref and rng.random() < 0.75:
+            op = ['remove', untup(rng.choice(ref))]      # an item that is in the list (equal, not identical)
+        case['ops'].append(op)
+
+
+DEFECTS = ['nods', 'novt', 'badvt', 'noval', 'noname', 'kidnorel', 'kidbadvt']
+
+
+def gen_fromseq(rng, i):
+    """construction from plain pydicom Datasets: ContentSequence.from_sequence"""
+    root, sr = [(False, True), (True, True), (False, False), (False, True), (True, False)][i % 5]
+    valid = i % 3 != 0
+    its = gen_init(rng, root and sr, sr, valid=True)
+    if not its or rng.random() < 0.3:
+        its = its + gen_init(rng, root and sr, sr, valid=True)
+    ds = [{'it': it, 'defect': None} for it in its]
+    if not valid:
+        # one or two datasets are malformed, or carry the wrong relationship state for this sequence
+        for _ in range(rng.choice([1, 1, 2])):
+            if not ds:
+                ds.append({'it': gen_item(rng, root, sr, p_bad=0, p_lax=0, p_junk=0), 'defect': None})
+            d = rng.choice(ds)
+            if rng.random() < 0.6:
+                d['defect'] = rng.choice(DEFECTS)
+                if d['defect'].startswith('kid'):
+                    d['it'] = dict(d['it'], node=True)
+            else:
+                d['it'] = dict(d['it'], rel=(0 if d['it']['rel'] else rng.choice([1, 2])))
+                if rng.random() < 0.3:
+                    d['it']['cont'] = not d['it']['cont']
+                    d['it']['v'] %= 2
+    case = {'kind': 'fromseq', 'root': root, 'sr': sr, 'ds': ds, 'init': [d['it'] for d in ds],
+            'copy': rng.random() < 0.6, 'ops': [], 'find_code': rng.random() < 0.3, 'reuse': False}
+    add_ops(rng, case, rng.choice([1, 2, 3, 5]))
     case['qs'] = probes(rng, case)
     return case
 
@@ -316,7 +394,8 @@ def alphabet(rng, root, sr, n):
            ['setslice', None, None, -1, [a, c, b][:n] + [a] * max(0, n - 3)],
            ['setslice', None, None, 2, [c]], ['setslice', 0, 1, None, [bad]],
            ['delint', 0], ['delint', -1], ['delint', n], ['delslice', None, None, 2], ['delslice', 1, None, None],
-           ['delslice', None, None, -2], ['delslice', None, None, None], ['delslice', None, None, 0]]
+           ['delslice', None, None, -2], ['delslice', None, None, None], ['delslice', None, None, 0],
+           ['pop', None], ['pop', 0], ['pop', n], ['remove', a], ['remove', c], ['remove', bad], ['reverse'], ['clear']]
     return ops
 
 
@@ -363,6 +442,8 @@ def gen_cases(rng, tier):
                 'ops': [['append', gen_item(rng, root, sr)]], 'find_code': False, 'reuse': False}
         case['qs'] = probes(rng, case)
         cases.append(case)
+    for i in range(nh // 5):
+        cases.append(gen_fromseq(rng, i))
     for _ in range(nh // 6):
         a = gen_item(rng, rng.random() < 0.5, True, p_bad=0.4, p_junk=0)
         b = dict(a)
@@ -401,7 +482,8 @@ def _observe(seq, case, mk):
     idx = [catch(lambda q=q: int(seq.index(mk(q)))) for q in case['qs']]
     cont = [catch(lambda q=q: bool(mk(q) in seq)) for q in case['qs']]
     nodes = catch(lambda: [render(x) for x in seq.get_nodes()])
-    return [items, finds, idx, cont, nodes, bool(seq.is_root), bool(seq.is_sr)]
+    counts = [catch(lambda q=q: int(seq.count(mk(q)))) for q in case['qs']]
+    return [items, finds, idx, cont, nodes, bool(seq.is_root), bool(seq.is_sr), counts]
 
 
 def _apply(seq, op, mk):
@@ -422,9 +504,53 @@ def _apply(seq, op, mk):
         del seq[op[1]]
     elif k == 'delslice':
         del seq[slice(op[1], op[2], op[3])]
+    elif k == 'pop':
+        return render(seq.pop() if op[1] is None else seq.pop(op[1]))
+    elif k == 'remove':
+        seq.remove(mk(op[1]))
+    elif k == 'reverse':
+        seq.reverse()
+    elif k == 'clear':
+        seq.clear()
     else:
         raise AssertionError(k)
     return None
+
+
+def plain(ds):
+    """the same attributes in plain pydicom Dataset / Sequence objects (what a file reader returns)"""
+    from pydicom import Dataset
+    from pydicom.sequence import Sequence
+    d = Dataset()
+    for e in ds:
+        if e.VR == 'SQ':
+            d.add_new(e.tag, 'SQ', Sequence([plain(x) for x in e.value]))
+        else:
+            d.add_new(e.tag, e.VR, e.value)
+    return d
+
+
+def build_ds(d):
+    defect = d['defect']
+    if defect == 'nods':
+        return 5
+    x = plain(build(d['it']))
+    if defect == 'novt':
+        del x.ValueType
+    elif defect == 'badvt':
+        x.ValueType = 'BOGUS'
+    elif defect == 'noval':
+        if d['it']['cont']:
+            del x.ContinuityOfContent
+        else:
+            del x.TextValue
+    elif defect == 'noname':
+        del x.ConceptNameCodeSequence
+    elif defect == 'kidnorel':
+        del x.ContentSequence[0].RelationshipType
+    elif defect == 'kidbadvt':
+        x.ContentSequence[0].ValueType = 'XX'
+    return x
 
 
 def run_impl(c):
@@ -446,12 +572,22 @@ def run_impl(c):
 
     def mk(it):
         # equal-but-distinct objects by default; sometimes the very same object again
-        if c.get('reuse') and it != JUNK:
+        if c.get('reuse') and not is_junk(it):
             key = repr(sorted(it.items()))
             if key not in cache:
                 cache[key] = build(it)
             return cache[key]
         return build(it)
+    if k == 'fromseq':
+        dsl = [build_ds(d) for d in c['ds']]
+        seq = catch(lambda: ContentSequence.from_sequence(dsl, is_root=c['root'], is_sr=c['sr'], copy=c['copy']))
+        if isinstance(seq, Err):
+            return seq
+        out = [_observe(seq, c, mk)]
+        for op in c['ops']:
+            e = catch(lambda: _apply(seq, op, mk))
+            out.append([e, _observe(seq, c, mk)])
+        return out
     items0 = [mk(i) for i in c['init']]
     if c.get('via'):
         via = catch(lambda: ContentSequence(items0, is_root=c['via'][0], is_sr=c['via'][1]))
@@ -477,6 +613,8 @@ def _b(x):
 def citem(it):
     if it == JUNK:
         return '(Item false 0 0 false false 0)'
+    if it == JUNKDS:
+        return '(Item false 0 0 false false 1)'
     t = tup(it)
     return f'(Item true {t[0]} {t[1]} {_b(t[2])} {_b(t[3])} {t[4]})'
 
@@ -489,7 +627,30 @@ def oz(x):
     return 'None' if x is None else f'(Some {zlit(x)})'
 
 
+def cds(d):
+    it, defect = d['it'], d['defect']
+    if defect == 'nods':
+        return '(DSet false 0 false false 0 0 0 0)'
+    vt = 0 if defect == 'novt' else 3 if defect == 'badvt' else 2 if it['cont'] else 1
+    kids = 2 if defect == 'kidnorel' else 3 if defect == 'kidbadvt' else 1 if it['node'] else 0
+    return (f"(DSet true {vt} {_b(defect != 'noval')} {_b(defect != 'noname')} {it['n']} {it['rel']} "
+            f"{kids} {it['v']})")
+
+
 def cop(op):
+    k = op[0]
+    if k == 'pop':
+        return f'Pop {zlit(-1 if op[1] is None else op[1])}'
+    if k == 'remove':
+        return f'Remove {citem(op[1])}'
+    if k == 'reverse':
+        return 'Reverse'
+    if k == 'clear':
+        return 'Clear'
+    return f'Op ({cop0(op)})'
+
+
+def cop0(op):
     k = op[0]
     if k == 'append':
         return f'Append {citem(op[1])}'
@@ -517,7 +678,11 @@ def coq_term(c):
     if k == 'slice':
         return f"(run_slice {zlit(c['n'])} {oz(c['a'])} {oz(c['b'])} {oz(c['c'])})"
     ops = '[' + '; '.join(cop(o) for o in c['ops']) + ']'
-    return (f"(run_history {_b(c['root'])} {_b(c['sr'])} {citems(c['init'])} [0; 1; 2] "
+    if k == 'fromseq':
+        ctor = '(FromSeq [' + '; '.join(cds(d) for d in c['ds']) + '])'
+    else:
+        ctor = f"(FromList {citems(c['init'])})"
+    return (f"(run_xhistory {_b(c['root'])} {_b(c['sr'])} {ctor} [0; 1; 2] "
             f"{citems(c['qs'])} {ops})")
 
 
@@ -526,7 +691,7 @@ def coq_term(c):
 # ---------------------------------------------------------------------------
 def _check_obs(ref, obs, c, where):
     root, sr = c['root'], c['sr']
-    items, finds, idx, cont, nodes, r_root, r_sr = obs
+    items, finds, idx, cont, nodes, r_root, r_sr, counts = obs
     got = [tuple(x) for x in items]
     if got != ref:
         return f'{where}: list is {got}, plain list gives {ref}'
@@ -542,8 +707,10 @@ def _check_obs(ref, obs, c, where):
             return f'{where}: find(name {n}) raised {f.kind}; {len(want)} item(s) with that name are in the list'
         if sorted(tuple(x) for x in f) != want:
             return f'{where}: find(name {n}) = {f}, items with that name in the list: {want}'
-    for q, i, m in zip(c['qs'], idx, cont):
+    for q, i, m, cnt in zip(c['qs'], idx, cont, counts):
         t = tup(q)
+        if cnt != (0 if t == JUNK else ref.count(t)):
+            return f'{where}: count({t}) = {cnt}, the list holds it {0 if t == JUNK else ref.count(t)} time(s)'
         if t == JUNK:
             if i != Err('TypeError'):
                 return f'{where}: index(non-item) = {i}'
@@ -576,7 +743,8 @@ def oracle(c, out):
     root, sr = c['root'], c['sr']
     ref = [tup(i) for i in c['init']]
     must = (root and not sr) or any(t == JUNK for t in ref) or \
-        any(basic_bad(t, root, sr) for t in ref if t != JUNK)
+        any(basic_bad(t, root, sr) for t in ref if t != JUNK) or \
+        any(d['defect'] for d in c.get('ds', []))        # from_sequence: a malformed dataset
     may = must or any(init_bad(t, root, sr) for t in ref if t != JUNK)
     if isinstance(out, Err):
         return None if may else f'valid construction refused with {out.kind}'
@@ -590,12 +758,18 @@ def oracle(c, out):
         xs = [tup(i) for i in entering(op)]
         got = [tuple(x) for x in obs[0]]
         new, pyerr = ref_apply(ref, op)
-        junk = JUNK in xs
+        junk = JUNK in [tup(i) for i in mentioned(op)]
         bad = any(basic_bad(t, root, sr) for t in xs if t != JUNK)
         lax = any(init_bad(t, root, sr) for t in xs if t != JUNK)
-        if e is None:
+        if e is None or isinstance(e, list):
             if junk or bad or pyerr:
                 return f'{where}: accepted, but must be refused (junk={junk}, rule broken={bad}, list error={pyerr})'
+            if op[0] == 'pop':
+                want = ref[-1 if op[1] is None else op[1]]
+                if e is None or tuple(e) != want:
+                    return f'{where}: pop returned {e}, the list had {want} there'
+            elif e is not None:
+                return f'{where}: returned {e}'
             ref = new
         else:
             allowed = set()
@@ -629,7 +803,7 @@ def nontrivial(c, out):
         return True
     if isinstance(out, Err):
         return True
-    accepted = sum(1 for e, _ in out[1:] if e is None)
+    accepted = sum(1 for e, _ in out[1:] if not isinstance(e, Err))
     return (accepted >= 2 and len(out[-1][1][0] if len(out) > 1 else out[0][0]) >= 2) or accepted < len(out) - 1
 
 
@@ -639,7 +813,11 @@ def shrink(c):
     for i in range(len(c['ops']) - 1, -1, -1):
         yield dict(c, ops=c['ops'][:i] + c['ops'][i + 1:])
     for i in range(len(c['init'])):
-        yield dict(c, init=c['init'][:i] + c['init'][i + 1:])
+        if 'ds' in c:
+            ds = c['ds'][:i] + c['ds'][i + 1:]
+            yield dict(c, ds=ds, init=[d['it'] for d in ds])
+        else:
+            yield dict(c, init=c['init'][:i] + c['init'][i + 1:])
     for i in range(len(c['qs'])):
         yield dict(c, qs=c['qs'][:i] + c['qs'][i + 1:])
     for j, op in enumerate(c['ops']):
